@@ -203,3 +203,145 @@ Proof.
     rewrite skipn_app, skipn_all, Nat.sub_diag. reflexivity.
 Qed.
 End TextContainer.
+
+(* ------------------------------------------------------------------ every written block has bytes *)
+From PF Require Import Formats.GltfNodeProofs.
+
+Lemma live_attr_len m : mesh_ok m -> (prim_count m =? 0) = false -> 0 < attr_len m /\ 0 < len (me_idx m).
+Proof.
+  intros (_ & _ & _ & Hi & _) Hp. unfold prim_count in Hp.
+  assert (Hl : 0 < len (me_idx m)) by (destruct (me_point m); lia).
+  split; [|exact Hl]. destruct (me_idx m) as [|i r]; [unfold len in Hl; cbn in Hl; lia|].
+  inversion Hi; subst. lia.
+Qed.
+Lemma run_chunks_pos sc : scene_ok sc ->
+  exists cks, Forall (fun ck => 0 < ck_size ck) cks /\ st_b (run sc) = of_chunks cks.
+Proof.
+  apply (run_chunks (fun ck => 0 < ck_size ck) model_ok).
+  - intros mo (Hm & _) Hp. destruct (live_attr_len _ Hm Hp) as (Ha & Hl).
+    destruct Hm as (H4 & H3 & H2 & _). unfold mesh_chunks.
+    assert (HA : forall k l, 0 < k -> attrs_ok k (attr_len (mo_mesh mo)) l ->
+                 Forall (fun ck => 0 < ck_size ck) (map (attr_chunk k) l)).
+    { intros k l Hk H. rewrite Forall_map. eapply Forall_impl; [|exact H]. cbv beta. intros nv (_ & Hc).
+      unfold ck_size, ck_count, attr_chunk, vec_chunk. cbn [ck_data ck_k ck_comp]. rewrite Hc.
+      pose proof (comp_size_pos (attr_comp (fst nv))). nia. }
+    repeat (apply Forall_app; split); try (apply HA; [lia|assumption]).
+    constructor; [|constructor]. unfold ck_size, ck_count, idx_chunk. cbn [ck_data ck_k ck_comp].
+    rewrite vcount_plain, len_map. pose proof (comp_size_pos (index_comp (attr_len (mo_mesh mo)))). nia.
+  - intros mo _ Hn. unfold inst_chunks.
+    assert (0 < len (mo_inst mo)) by (destruct (mo_inst mo); [congruence|unfold len; cbn; lia]).
+    repeat constructor; unfold ck_size, ck_count, vec_chunk; cbn [ck_data ck_k ck_comp comp_size];
+      rewrite vcount_plain, len_map; lia.
+Qed.
+Lemma total_pos cks : Forall (fun ck => 0 < ck_size ck) cks -> cks = [] \/ 0 < total cks.
+Proof. intros H. destruct H; [left; reflexivity|right; cbn [total]; lia]. Qed.
+
+(* ------------------------------------------------------------------ the document-consistency half of the checker *)
+Definition obs_text (sc : scene) : obs :=
+  {| o_sum := to_summary (run sc); o_payload := Some (buf (run sc));
+     o_bin_len := b_written (st_b (run sc)); o_glb := None |}.
+
+Lemma key_if_true b k : b = true -> key_if b k = [].
+Proof. intros ->. reflexivity. Qed.
+
+Lemma listN_eqb_refl l : listN_eqb l l = true.
+Proof. apply (keyed_refl _ _ keyed_listN). Qed.
+Lemma optN_eqb_refl o : optN_eqb o o = true.
+Proof. apply (keyed_refl _ _ keyed_optN). Qed.
+Lemma opt_listN_eqb_refl o : opt_listN_eqb o o = true.
+Proof. destruct o; cbn; [apply listN_eqb_refl|reflexivity]. Qed.
+Lemma glight_eqb_refl g : glight_eqb g g = true.
+Proof. unfold glight_eqb. rewrite String.eqb_refl, opt_listN_eqb_refl, !optN_eqb_refl. reflexivity. Qed.
+Lemma list_eqb_refl {A} (e : A -> A -> bool) l : (forall a, e a a = true) -> list_eqb e l l = true.
+Proof. intros H. induction l; cbn [list_eqb]; [reflexivity|]. rewrite H, IHl. reflexivity. Qed.
+
+Lemma mmv_list_refl l : Forall (fun v => v <> MOther) l -> list_eqb mmv_eqb l l = true.
+Proof. induction 1 as [|v l Hv _ IH]; cbn [list_eqb]; [reflexivity|]. rewrite IH.
+  destruct v; [cbn [mmv_eqb]; rewrite N.eqb_refl; reflexivity|reflexivity|reflexivity|congruence]. Qed.
+Lemma minmax_of_no_other c k es : Forall (fun v => v <> MOther) (fst (minmax_of c k es)) /\ Forall (fun v => v <> MOther) (snd (minmax_of c k es)).
+Proof.
+  unfold minmax_of. cbn [fst snd]. split; apply Forall_forall; intros v Hv; apply in_map_iff in Hv; destruct Hv as (j & <- & _);
+    unfold col_min, col_max; destruct (fold_mm _ _); discriminate.
+Qed.
+Lemma comp_of_code_comp c : is_idx_comp c = false -> comp_of_code (comp_code c) = c.
+Proof. destruct c; cbn; congruence. Qed.
+
+Lemma minmax_ok_acc i ck : minmax_ok (acc_of i ck) (expand (ck_data ck)) = true.
+Proof.
+  unfold minmax_ok, acc_of. cbn [a_min a_max a_comp a_k]. destruct (is_idx_comp (ck_comp ck)) eqn:E; [reflexivity|].
+  rewrite (comp_of_code_comp _ E). unfold minmax. rewrite <- minmax_expand.
+  destruct (minmax_of_no_other (ck_comp ck) (ck_k ck) (expand (ck_data ck))) as (H1 & H2).
+  destruct (minmax_of (ck_comp ck) (ck_k ck) (expand (ck_data ck))) as [mn mx]. cbn [fst snd] in *.
+  destruct mn, mx; try reflexivity; rewrite !mmv_list_refl by assumption; reflexivity.
+Qed.
+
+Lemma light_nodes_length j ls : length (light_nodes j ls) = length ls.
+Proof. revert j. induction ls; intros j; cbn [light_nodes length]; auto. Qed.
+
+Lemma light_checks s j ls :
+  flat_map (fun jl => light_node_check s (N.of_nat (fst (fst jl))) (snd (fst jl)) (snd jl))
+    (zip (zip (seq j (length ls)) ls) (light_nodes (N.of_nat j) ls)) = [].
+Proof.
+  revert j. induction ls as [|l ls IH]; intros j; cbn [length seq zip light_nodes flat_map]; [reflexivity|].
+  replace (N.of_nat j + 1) with (N.of_nat (S j)) by lia. rewrite IH, app_nil_r.
+  unfold light_node_check, light_node. cbn [gn_light gn_t gn_mesh gn_exts fst snd].
+  apply key_if_true. rewrite optN_eqb_refl, opt_listN_eqb_refl. reflexivity.
+Qed.
+
+Lemma covers_seqN n : covers (N.of_nat n) (seqN n) = true.
+Proof.
+  unfold covers, seqN. rewrite Nat2N.id. apply forallb_forall. intros i Hi. apply existsb_exists.
+  exists (N.of_nat i). split; [apply in_map, Hi|apply N.eqb_refl].
+Qed.
+
+Theorem check_struct_run sc : scene_ok sc -> scene_ptr_ok sc -> gltf_check_struct sc (obs_text sc) = [].
+Proof.
+  intros Hok Hp. unfold gltf_check_struct, obs_text. cbn [o_sum o_payload o_bin_len o_glb].
+  destruct (views_tile sc) as (_ & Hdis & Hin & Hbuf & Hlen). specialize (Hlen Hok). cbv zeta in *.
+  destruct (run_chunks_pos sc Hok) as (cks & Hpos & Ecks).
+  destruct (run_chunks_ok sc Hok) as (cks' & Hk & Ecks'). assert (cks' = cks) by (rewrite Ecks in Ecks'; inversion Ecks'; reflexivity). subst cks'.
+  destruct (nodes_of_run sc Hp) as (mn & En & Hn & Hsc & Hli). cbv zeta in *.
+  destruct (textures_stored_once sc) as (T1 & T2 & T3 & T4). cbv zeta in *.
+  set (s := to_summary (run sc)) in *.
+  assert (Es : s_views s = views_of 0 cks /\ s_accs s = accs_of 0 cks /\ b_written (st_b (run sc)) = total cks
+               /\ buf (run sc) = flat_map chunk_bytes cks).
+  { unfold s, to_summary, buf, buf_b. cbn [s_views s_accs]. rewrite Ecks. repeat split. }
+  destruct Es as (Ev & Ea & Ew & Eb).
+  assert (C1 : Nat.leb (length (s_buffers s)) 1 = true) by (rewrite Hbuf; destruct (0 <? _); reflexivity).
+  assert (C2 : match s_buffers s with [] => b_written (st_b (run sc)) =? 0 | [b] => b_written (st_b (run sc)) =? b | _ => false end = true).
+  { rewrite Hbuf. destruct (0 <? b_written (st_b (run sc))) eqn:E; [apply N.eqb_refl|lia]. }
+  assert (C3 : (len (buf (run sc)) =? b_written (st_b (run sc))) = true) by lia.
+  assert (C4 : forallb (view_ok (s_buffers s)) (s_views s) = true).
+  { rewrite Hbuf. destruct (total_pos _ Hpos) as [->|Ht].
+    - rewrite Ev. reflexivity.
+    - replace (0 <? b_written (st_b (run sc))) with true by lia. exact Hin. }
+  assert (C6 : forallb (acc_ok (s_views s)) (s_accs s) = true).
+  { rewrite Ev, Ea. apply acc_ok_of. eapply Forall_impl; [|exact Hk]. intros ck (H & _). exact H. }
+  assert (C7 : forallb (fun a => match decode_acc (s_views s) (buf (run sc)) a with
+                                 | Some es => minmax_ok a es | None => false end) (s_accs s) = true).
+  { rewrite Ev, Ea, Eb. apply forallb_forall. intros a Ha. apply In_nth_error in Ha. destruct Ha as (n & Ha).
+    assert (Hn' : (n < length cks)%nat) by (rewrite <- (accs_of_length 0 cks); apply nth_error_Some; congruence).
+    destruct (nth_error cks n) as [ck|] eqn:En'; [|apply nth_error_None in En'; lia].
+    destruct (acc_view_of cks n ck En') as (E1 & _). rewrite Ha in E1. apply some_inj in E1. subst a.
+    rewrite (decode_canonical cks n ck Hk En'). apply minmax_ok_acc. }
+  assert (C8 : ext_ok s = true) by apply ext_ok_run.
+  assert (C9 : Nat.eqb (length (s_nodes s)) (length (filter live (sc_models sc)) + length (sc_lights sc)) = true).
+  { unfold s, to_summary. cbn [s_nodes]. rewrite En, app_length, light_nodes_length, <- (Forall2_len _ _ _ Hn). apply Nat.eqb_refl. }
+  assert (C10 : flat_map (fun jl => light_node_check s (N.of_nat (fst (fst jl))) (snd (fst jl)) (snd jl))
+                  (zip (zip (seq 0 (length (sc_lights sc))) (sc_lights sc))
+                       (skipn (length (filter live (sc_models sc))) (s_nodes s))) = []).
+  { unfold s at 2. unfold to_summary. cbn [s_nodes]. rewrite En, (Forall2_len _ _ _ Hn), skipn_app, skipn_all, Nat.sub_diag. cbn [skipn app].
+    apply (light_checks _ 0). }
+  assert (C11 : list_eqb glight_eqb (s_lights s) (map light_out (sc_lights sc)) = true).
+  { unfold s, to_summary. cbn [s_lights]. rewrite Hli. apply list_eqb_refl, glight_eqb_refl. }
+  assert (C12 : Bool.eqb (str_in "KHR_lights_punctual" (s_root_exts s)) (negb (Nat.eqb (length (sc_lights sc)) 0)) = true).
+  { unfold s, to_summary. cbn [s_root_exts]. rewrite Hli. destruct (sc_lights sc); reflexivity. }
+  assert (C13 : match s_scenes s with
+                | [roots] => (s_scene s =? 0) && Nat.eqb (length roots) (length (s_nodes s))
+                             && covers (len (s_nodes s)) roots && forallb (fun r => valid_idx r (s_nodes s)) roots
+                | _ => false end = true).
+  { unfold s, to_summary. cbn [s_scenes s_scene s_nodes]. rewrite Hsc. unfold seqN at 1. rewrite map_length, seq_length, Nat.eqb_refl.
+    unfold len. rewrite covers_seqN. cbn [andb N.eqb]. apply forallb_forall. intros r Hr. apply seqN_In in Hr.
+    unfold valid_idx, len. lia. }
+  rewrite C1, C2, C3, C4, Hdis, C6, C7, C8, C9, C10, C11, C12, C13, T1, T2, T3, T4. reflexivity.
+Qed.
